@@ -242,7 +242,13 @@ func chanElem(v *Val) types.Type {
 // ok is true (comma-ok receive), or the channel is declared never-closed (chanopen), or
 // the value is not the zero value a closed channel yields.
 func (fr *Frame) onRecvOk(ch *Val, v *Val, ok Term, pos token.Pos) {
-	defer fr.ghostAfter("recv", fr.chanName(ch), map[string]*Val{"ch": ch, "v": v})
+	okVal := boolVal("true") // `ok` in recv anchors: false when the value is the zero value of a closed channel
+	if ok != "" {
+		okVal = boolVal(ok)
+	} else if fr.selectOk != "" {
+		okVal = boolVal(fr.selectOk)
+	}
+	defer fr.ghostAfter("recv", fr.chanName(ch), map[string]*Val{"ch": ch, "v": v, "ok": okVal})
 	if c, isDone := fr.ctxOfDoneChan(ch); isDone {
 		// a receive from ctx.Done() only completes once ctx is done
 		cd := fr.vc.heap(fr.st, ctxDoneHeap, ctxDoneSort)
